@@ -1171,6 +1171,13 @@ func Run(c *ev.Ctx) int {
 			w.run()
 		}()
 	}
+	for _, cc := range []string{"cache-default", "cache-disabled"} {
+		wg.Add(1)
+		go func(cc string) {
+			defer wg.Done()
+			refusedAdminLane(c, cc)
+		}(cc)
+	}
 	for _, sc := range []bool{false, true} {
 		for _, k := range []string{"policy", "acl-grants", "acl-public"} {
 			wg.Add(1)
